@@ -234,6 +234,14 @@ var c08History = probe.Define("C08", "history", func(t *rapid.T) c08In {
 			return probe.Fail("derivation %d: keys differ from the slices of prf+(SK_d, Ni|Nr) (encr %d octets, integ index %d):\n got  %x|%x|%x|%x\n want %x|%x|%x|%x",
 				i+1, ref.Encrs[st.Encr].KeyLen, st.Integ, kL.EncrI2R, kL.IntegI2R, kL.EncrR2I, kL.IntegR2I, want.EncrI2R, want.IntegI2R, want.EncrR2I, want.IntegR2I)
 		}
+		// the keys are the Child SA's own, each one of them: the caller extends one (key | salt for its ESP implementation) -
+		// the others stay what they are
+		for _, k := range [][]byte{kL.EncrI2R, kL.IntegI2R, kL.EncrR2I, kL.IntegR2I} {
+			_ = append(k, 0xde, 0xad, 0xbe, 0xef, 0xde, 0xad, 0xbe, 0xef)
+		}
+		if !childEqual(kL, want) {
+			return probe.Fail("derivation %d: appending to one of the four keys (key | salt) changed another one: the keys are windows of one array", i+1)
+		}
 		if !childEqual(kL, kF) {
 			return probe.Fail("derivation %d on the long-lived SA differs from the derivation on a fresh copy", i+1)
 		}
